@@ -267,6 +267,19 @@ func corpus() []tcase {
 	add(strategy.Auto, 4, 0, []strategy.Info{mk("a", 0, 0, 5, maxInt), mk("b", 0, 0, 5, maxInt-1)}, 10)
 	add(strategy.Each, maxInt, 2, []strategy.Info{mk("a", 0, 0, maxInt, 0), mk("b", 0, 0, maxInt, 3), mk("c", 0, 0, 7, 0)}, maxInt)
 	add(strategy.Drained, maxInt, 0, []strategy.Info{mk("a", 0.5, 0, maxInt, 0), mk("b", 0.25, 0, 9, 3)}, maxInt)
+	// AUTO: the limit leaves a single eligible node whose capacity is below limit-count
+	// while total still covers need (the heap runs down to / starts with one node)
+	add(strategy.Auto, 4, 5, []strategy.Info{mk("a", 0, 0, 2, 0), mk("b", 0, 0, 10, 5)}, 12)
+	add(strategy.Auto, 2, 5, []strategy.Info{mk("a", 0, 0, 2, 0), mk("b", 0, 0, 10, 5)}, 12)
+	add(strategy.Auto, 3, 5, []strategy.Info{mk("a", 0, 0, 2, 0), mk("b", 0, 0, 10, 5)}, 12)
+	add(strategy.Auto, 3, 4, []strategy.Info{mk("a", 0, 0, 1, 1), mk("b", 0, 0, maxInt, 4), mk("c", 0, 0, 7, 9)}, maxInt)
+	add(strategy.Auto, 5, 6, []strategy.Info{mk("a", 0, 0, 2, 1), mk("b", 0, 0, 1, 2), mk("c", 0, 0, 9, 6)}, 12)
+	add(strategy.Auto, 6, 0, []strategy.Info{mk("a", 0, 0, 1, 0), mk("b", 0, 0, 1, 0), mk("c", 0, 0, 3, 0)}, 5)
+	// GLOBAL: per-instance shares far below 1e-9 (and denormal), equal usages: the balance is decided by them
+	for _, rt := range []float64{1e-12, 3e-11, 4e-10, 6e-10, 2e-9, 1e-7, 5e-324, 1e-300} {
+		add(strategy.Global, 12, 0, []strategy.Info{mk("a", 0.25, rt, 20, 0), mk("b", 0.25, rt, 20, 0), mk("c", 0.25, 2*rt, 20, 0)}, 60)
+		add(strategy.Global, 9, 0, []strategy.Info{mk("a", 0, rt, 20, 0), mk("b", rt/2, rt, 4, 0), mk("c", 0.5, 0.125, 20, 0)}, 44)
+	}
 	// empty and singleton tables
 	all(1, 0, nil)
 	all(1, 1, nil)
@@ -488,6 +501,65 @@ func (g gen) random(stream string, bigOK bool) tcase {
 	return tcase{s, need, limit, infos, total, stream}
 }
 
+// autoLastNode: the per-node limit leaves few (often one) eligible nodes with little
+// capacity, the others already reached the limit but still contribute to total.
+func (g gen) autoLastNode() tcase {
+	limit := 2 + g.intn(7)
+	n := 2 + g.intn(5)
+	infos := make([]strategy.Info, n)
+	eligible := 1 + g.intn(2)
+	if eligible > n-1 {
+		eligible = n - 1
+	}
+	room := 0
+	for i := range infos {
+		if i < eligible {
+			cnt := g.intn(limit - 1)        // < limit-1: at least 2 below the limit
+			cp := 1 + g.intn(limit-cnt-1)    // capacity strictly below limit-cnt
+			infos[i] = mk(fmt.Sprintf("node-%02d", i), g.float(true), g.float(true)/4, cp, cnt)
+			room += cp
+		} else {
+			infos[i] = mk(fmt.Sprintf("node-%02d", i), g.float(true), g.float(true)/4, g.pick(5, 10, 30, maxInt), limit+g.intn(3))
+		}
+	}
+	g.r.Rng.Shuffle(n, func(i, j int) { infos[i], infos[j] = infos[j], infos[i] })
+	need := room + g.pick(-1, 0, 0, 1, 1, 2, 3)
+	if need < 1 {
+		need = 1
+	}
+	return tcase{strategy.Auto, need, limit, infos, satsum(infos), "auto-last-node"}
+}
+
+// globalTiny: usages (nearly) equal, per-instance shares between denormal and 1e-7,
+// sometimes mixed with ordinary magnitudes; long loops.
+func (g gen) globalTiny() tcase {
+	n := 2 + g.intn(4)
+	base := []float64{0, 0.25, 0.5, 1e-9, 0.1}[g.intn(5)]
+	tiny := []float64{5e-324, 1e-300, 1e-15, 1e-12, 3e-11, 4e-10, 5e-10, 6e-10, 1e-9, 3e-9, 2e-8, 1e-7}
+	infos := make([]strategy.Info, n)
+	total := 0
+	for i := range infos {
+		rt := tiny[g.intn(len(tiny))] * float64(1+g.intn(3))
+		u := base
+		switch g.intn(4) {
+		case 0:
+			u = base + tiny[g.intn(len(tiny))]
+		case 1:
+			if g.intn(3) == 0 {
+				rt = float64(1+g.intn(4)) / 16 // ordinary magnitude next to tiny ones
+			}
+		}
+		cp := 3 + g.intn(25)
+		infos[i] = mk(fmt.Sprintf("node-%02d", i), u, rt, cp, g.intn(3))
+		total += cp
+	}
+	need := 8 + g.intn(17)
+	if need > total {
+		need = total
+	}
+	return tcase{strategy.Global, need, 0, infos, satsum(infos), "global-tiny"}
+}
+
 func (g gen) malformed() tcase {
 	c := g.random("malformed", false)
 	switch g.intn(10) {
@@ -575,6 +647,10 @@ func TestStrategy(t *testing.T) {
 	n := r.N(600, 20000)
 	for i := 0; i < n; i++ {
 		switch {
+		case i%12 == 10:
+			emit(r, g.autoLastNode())
+		case i%12 == 11:
+			emit(r, g.globalTiny())
 		case i%10 < 4:
 			emit(r, g.random("boundary", true))
 		case i%10 < 9:
@@ -586,7 +662,7 @@ func TestStrategy(t *testing.T) {
 	r.Finish("corpus (defect witnesses, empty/singleton/unlimited tables, the repository's test tables, tie tables) " +
 		"then 40% boundary-of-feasibility cases (need = feasibility threshold -1/0/+1), 50% random tables " +
 		"(1-12 nodes, 1/12 with 13-42 nodes; capacities {1,2,3,small,MaxInt}, counts 0-6, " +
-		"need 1-40, limit 0-5, dyadic/decimal/last-bit-perturbed floats, tie-heavy), 10% malformed (unknown strategy, " +
+		"need 1-40, limit 0-5, dyadic/decimal/last-bit-perturbed floats, tie-heavy), 1/12 AUTO tables where the limit leaves one or two low-capacity eligible nodes while total covers need, 1/12 GLOBAL tables with per-instance shares from denormal to 1e-7 and (nearly) equal usages, 10% malformed (unknown strategy, " +
 		"count<=0, negative limit, duplicate names, zero/negative capacity, negative count, NaN/Inf, huge need); " +
 		"non-trivial = valid-stream case with >= 2 candidates not rejected by the first guard (strategy name, count, total<need). " +
 		"Strategies: " + strings.Join(strategies, ","))
